@@ -16,6 +16,7 @@ type c16Dom struct {
 	Mode                          string
 	Ops                           []string
 	Rom                           []string
+	Data                          []string
 }
 
 type c16Res struct {
@@ -63,6 +64,7 @@ func init() {
 						}
 					}
 					cd.Rom = append(cd.Rom, d.Slocs...)
+					cd.Data = append(cd.Data, d.Vars...)
 					r.Doms = append(r.Doms, cd)
 				}
 				ts := c10Snapshot(bm, "done")
